@@ -1,2 +1,139 @@
-/-! C01 — placeholder; theorems follow. -/
-theorem C01_placeholder : True := trivial
+import SSLemmas.ExcTable
+/-!
+# C01 — contexts of a suspended frame: the table half
+
+What is proved, for every table / position / stack: the decoder inverts the assembler's encoding
+(`C01_varint_roundtrip`, `C01_table_roundtrip`); on a table as the assembler emits it (sorted, disjoint ranges)
+stackscope's bisect walk visits exactly the handlers the interpreter's own lookup would hand an exception to, in
+turn (`C01_walk_chain`); when handlers lie after the ranges they protect the walk ends within |table| steps
+(`C01_walk_terminates`) — and a table with a handler inside its own range makes it spin (`C01_walk_cycle_witness`:
+the real loop has no guard); the context list is one entry per with-handler on that chain, in chain order,
+none dropped or invented, with the exiting one last, or the analysis fails as a whole (`C01_join_exact`,
+`C01_join_fails_closed`).
+
+NOT proved: that CPython's compiler emits, for every program, a table on which this chain equals the set of
+managers entered and not exited — measured by harness/props/c01.py on generated programs at every suspension
+point.
+-/
+open SS.ExcTable
+
+theorem C01_varint_roundtrip (n : Nat) (rest : List Nat) : parseVarint (encVarint n ++ rest) = some (n, rest) :=
+  parseVarint_enc n rest
+
+/-- Bit 7 (start-of-entry marker) does not disturb the decoder. -/
+theorem C01_varint_msb (n : Nat) (rest : List Nat) : parseVarint (setMsb (encVarint n) ++ rest) = some (n, rest) :=
+  parseVarint_encMsb n rest
+
+/-- Every entry list survives encode → decode: byte offsets doubled, the end made inclusive, depth and the
+lasti flag split. -/
+theorem C01_table_roundtrip (es : List Entry) : parseTable (encodeTable es) = es.map Entry.view :=
+  parseTableF_enc es _ (encodeTable_length es)
+
+/-- A truncated table loses only its incomplete last entry (the generator's StopIteration). -/
+theorem C01_truncated_tail (es : List Entry) (junk : List Nat) (hj : parseEntry junk = none) (f : Nat) (hf : es.length < f) :
+    parseTableF f (encodeTable es ++ junk) = es.map Entry.view := by
+  induction es generalizing f with
+  | nil =>
+    cases f with
+    | zero => omega
+    | succ f => simp [encodeTable, parseTableF, hj]
+  | cons e es ih =>
+    cases f with
+    | zero => omega
+    | succ f =>
+      have : encodeTable (e :: es) ++ junk = encEntry e ++ (encodeTable es ++ junk) := by simp [encodeTable]
+      rw [this]
+      simp only [parseTableF, parseEntry_enc, List.map_cons]
+      rw [ih f (by simpa using hf)]
+
+/-- On a table with sorted, disjoint, non-empty ranges, stackscope's walk and the interpreter's handler chain
+are the same function — same blocks, same order, same behaviour on running out of fuel. -/
+theorem C01_walk_chain (hs : List View) (hd : Disjoint hs) (lasti : Nat) :
+    walk hs lasti = chainGo hs (hs.length + 1) lasti [] :=
+  walkGo_eq_chainGo hs hd _ _ _
+
+/-- No hang: with forward handlers the loop ends within |table| + 1 iterations. -/
+theorem C01_walk_terminates (hs : List View) (hd : Disjoint hs) (hf : Forward hs) (lasti : Nat) :
+    ∃ blocks, walk hs lasti = some blocks := by
+  rw [C01_walk_chain hs hd]
+  exact chainGo_terminates hs hf _ _ _ (by have := rem_le_length hs lasti; omega)
+
+/-- The loop has no guard of its own: a handler inside its own range keeps it running for any fuel. -/
+theorem C01_walk_cycle (f : Nat) (acc : List Block) :
+    walkGo [{ start := 0, end_ := 10, target := 4, depth := 0, lasti := false }] f 4 acc = none := by
+  induction f generalizing acc with
+  | zero => rfl
+  | succ f ih =>
+    simp only [walkGo, bisectLeft, List.takeWhile, ltKey, covers]
+    simp
+    exact ih _
+
+theorem c01_ctxOf_handler {α β : Type} (stack : List α) (selfOf : α → Option β) (b : Block) (c : Nat × Option β)
+    (h : ctxOf stack selfOf b = some c) : c.1 = b.handler := by
+  unfold ctxOf at h
+  split at h
+  · cases h
+  · split at h
+    · cases h
+    · cases h; rfl
+
+theorem c01_mapAll_fst {α β : Type} (stack : List α) (selfOf : α → Option β) :
+    ∀ (ws : List Block) (out : List (Nat × Option β)), mapAll (ctxOf stack selfOf) ws = some out → out.map (·.1) = ws.map (·.handler) := by
+  intro ws
+  induction ws with
+  | nil => intro out h; simp [mapAll] at h; simp [← h]
+  | cons w ws ih =>
+    intro out h
+    simp only [mapAll] at h
+    split at h
+    · cases h
+    · rename_i c hc
+      split at h
+      · cases h
+      · rename_i bs hbs
+        cases h
+        simp [c01_ctxOf_handler stack selfOf w c hc, ih bs hbs]
+
+theorem c01_mapAll_none {α β : Type} (f : α → Option β) (b : α) (hbad : f b = none) :
+    ∀ (ws : List α), b ∈ ws → mapAll f ws = none := by
+  intro ws
+  induction ws with
+  | nil => intro h; cases h
+  | cons w ws ih =>
+    intro h
+    simp only [mapAll]
+    rcases List.mem_cons.mp h with rfl | h
+    · simp [hbad]
+    · split
+      · rfl
+      · simp [ih h]
+
+/-- The join keeps exactly the with-handlers of the chain, in order, and puts the exiting context last. -/
+theorem C01_join_exact {α β : Type} (blocks : List Block) (isWith : Nat → Bool) (stack : List α) (selfOf : α → Option β)
+    (exiting : Option Nat) (cs : List (Nat × Option β)) (h : join blocks isWith stack selfOf exiting = some cs) :
+    cs.map (·.1) = ((blocks.filter (fun b => isWith b.handler)).map (·.handler)) ++ exiting.toList := by
+  unfold join at h
+  split at h
+  · cases h
+  · rename_i cs0 hm
+    cases h
+    rw [List.map_append, c01_mapAll_fst _ _ _ _ hm]
+    cases exiting <;> simp
+
+/-- …and when a with-handler's slot is missing or holds something without `__self__`, the analysis fails as a
+whole (the caller then falls back to the referents analysis and warns): never a shorter or shifted list. -/
+theorem C01_join_fails_closed {α β : Type} (blocks : List Block) (isWith : Nat → Bool) (stack : List α) (selfOf : α → Option β)
+    (exiting : Option Nat) (b : Block) (hb : b ∈ blocks) (hw : isWith b.handler = true)
+    (hbad : ctxOf stack selfOf b = none) :
+    join blocks isWith stack selfOf exiting = none := by
+  unfold join
+  have hmem : b ∈ blocks.filter (fun b => isWith b.handler) := by simp [hb, hw]
+  rw [c01_mapAll_none _ b hbad _ hmem]
+
+/-! Non-vacuity: the table CPython 3.12 emits for `with a as x: with b: pass` is disjoint and forward, decodes
+to its six entries, and the walk from inside the inner body finds both with-handlers, outermost first. -/
+def C01.exTable : List Nat := [131, 3, 37, 3, 134, 1, 25, 5, 136, 8, 37, 3, 153, 5, 34, 9, 158, 7, 37, 3, 165, 5, 46, 7]
+example : (parseTable C01.exTable).length = 6 := by decide
+example : disjointB (parseTable C01.exTable) = true ∧ forwardB (parseTable C01.exTable) = true := by decide
+example : walk (parseTable C01.exTable) 12 = some [⟨92, 3⟩, ⟨74, 1⟩, ⟨68, 4⟩, ⟨50, 2⟩] := by decide
+example : encodeTable [⟨3, 3, 37, 1, true⟩, ⟨6, 1, 25, 2, true⟩] = [131, 3, 37, 3, 134, 1, 25, 5] := by decide
